@@ -1536,11 +1536,11 @@ void StringReader::go(size_t offset) {
 }
 
 void StringReader::skip(size_t bytes) {
-  this->offset += bytes;
-  if (this->offset > this->length) {
+  if ((this->offset > this->length) || (bytes > this->length - this->offset)) {
     this->offset = this->length;
     throw out_of_range("skip beyond end of string");
   }
+  this->offset += bytes;
 }
 
 bool StringReader::skip_if(const void* data, size_t size) {
@@ -1573,7 +1573,7 @@ StringReader StringReader::sub(size_t offset, size_t size) const {
   if (offset >= this->length) {
     return StringReader();
   }
-  if (offset + size > this->length) {
+  if (size > this->length - offset) {
     return StringReader(
         reinterpret_cast<const char*>(this->data) + offset,
         this->length - offset);
@@ -1591,7 +1591,7 @@ StringReader StringReader::subx(size_t offset) const {
 }
 
 StringReader StringReader::subx(size_t offset, size_t size) const {
-  if (offset + size > this->length) {
+  if ((offset > this->length) || (size > this->length - offset)) {
     throw out_of_range("sub-reader begins or extends beyond end of data");
   }
   return StringReader(reinterpret_cast<const char*>(this->data) + offset, size);
@@ -1610,7 +1610,7 @@ BitReader StringReader::sub_bits(size_t offset, size_t size) const {
   if (offset >= this->length) {
     return BitReader();
   }
-  if (offset + size > this->length) {
+  if (size > this->length - offset) {
     return BitReader(
         reinterpret_cast<const char*>(this->data) + offset,
         (this->length - offset) * 8);
@@ -1628,14 +1628,14 @@ BitReader StringReader::subx_bits(size_t offset) const {
 }
 
 BitReader StringReader::subx_bits(size_t offset, size_t size) const {
-  if (offset + size > this->length) {
+  if ((offset > this->length) || (size > this->length - offset)) {
     throw out_of_range("sub-reader begins or extends beyond end of data");
   }
   return BitReader(reinterpret_cast<const char*>(this->data) + offset, size * 8);
 }
 
 const char* StringReader::peek(size_t size) {
-  if (this->offset + size <= this->length) {
+  if ((this->offset <= this->length) && (size <= this->length - this->offset)) {
     return reinterpret_cast<const char*>(this->data + this->offset);
   }
   throw out_of_range("not enough data to read");
@@ -1676,14 +1676,14 @@ string StringReader::pread(size_t offset, size_t size) const {
   if (offset >= this->length) {
     return string();
   }
-  if (offset + size > this->length) {
+  if (size > this->length - offset) {
     return string(reinterpret_cast<const char*>(this->data + offset), this->length - offset);
   }
   return string(reinterpret_cast<const char*>(this->data + offset), size);
 }
 
 string StringReader::preadx(size_t offset, size_t size) const {
-  if (offset + size > this->length) {
+  if ((offset > this->length) || (size > this->length - offset)) {
     throw out_of_range("not enough data to read");
   }
   return string(reinterpret_cast<const char*>(this->data + offset), size);
@@ -1695,7 +1695,7 @@ size_t StringReader::pread(size_t offset, void* data, size_t size) const {
   }
 
   size_t ret;
-  if (offset + size > this->length) {
+  if (size > this->length - offset) {
     memcpy(data, this->data + offset, this->length - offset);
     ret = this->length - offset;
   } else {
@@ -1706,7 +1706,7 @@ size_t StringReader::pread(size_t offset, void* data, size_t size) const {
 }
 
 void StringReader::preadx(size_t offset, void* data, size_t size) const {
-  if ((offset >= this->length) || (offset + size > this->length)) {
+  if ((offset >= this->length) || (size > this->length - offset)) {
     throw out_of_range("not enough data to read");
   }
   memcpy(data, this->data + offset, size);
